@@ -35,8 +35,8 @@ META = dict(
          "for particular joint types and poses; the lattice contains every joint type in every position of every small tree.",
     note="Tendon lengths/Jacobians and body-com Jacobians are the engine's (C07). Polynomial damping on ball/free joints is per dof and "
          "polynomial stiffness on ball/free joints acts on the geodesic distance (the only reading the docs allow). Fluid forces enter only "
-         "the sum identity (their law is not part of the statement). Ball-spring cut locus (angle pi) and exact dead-band ends excluded from "
-         "the gradient test by a counted rule. "
+         "the sum identity (their law is not part of the statement). Ball-spring cut locus (angle pi), exact dead-band ends and zero-length "
+         "spatial-tendon segments are excluded from the gradient test by a counted rule. "
          "Not covered: flex elasticity / edge spring-dampers, passive contact and adhesion forces, actuator-contributed tendon damping, "
          "mjcb_passive and passive plugins (the statement is about joint/tendon springs, dampers and gravcomp).",
     design_ref="DESIGN.md §3 C29")
@@ -226,7 +226,7 @@ def run_model(lib, part, par, js, variant, gc):
                 d.qvel[:] = v
                 lib.mj_forward(m, d)
                 rp = {"xml": xml, "qpos": q, "qvel": v, "disableflags": dflags}
-                nontriv = (par, js, variant, gc, flabel, qi, vi) if (nv >= 2 and (vi > 0 or qi > 0)) else None
+                nontriv = (par, js, variant, gc, flabel, qi) if (nv >= 2 and vi == len(vs) - 1 and qi > 0) else None
                 part.count(1, key=nontriv, sample={"parents": par, "joints": js, "variant": variant, "gravcomp": gc, "flags": flabel,
                                                    "qpos": q, "qvel": v} if (qi == 1 and vi == 2 and dflags == 0) else None)
                 fs, fd, fg, ff, fp = (np.array(d.qfrc_spring), np.array(d.qfrc_damper), np.array(d.qfrc_gravcomp),
@@ -287,6 +287,12 @@ def run_model(lib, part, par, js, variant, gc):
                 for i in range(mi.ntendon):
                     L = float(d.ten_length[i])
                     if min(abs(L - ref.tls[i][0]), abs(L - ref.tls[i][1])) < 1e-4 and ref.tls[i][0] != ref.tls[i][1]:
+                        excl = True
+                if variant == "tendon_spatial":
+                    # a zero-length segment (two consecutive path sites coincide) makes the tendon length |x| - shaped: not differentiable
+                    sx = np.array(d.site_xpos).reshape(-1, 3)
+                    path = [lib.mj_name2id(m, 6, b"sw"), lib.mj_name2id(m, 6, b"s0")] + ([lib.mj_name2id(m, 6, b"s%d" % (len(par) - 1))] if len(par) > 1 else [])
+                    if any(np.linalg.norm(sx[a] - sx[b]) < 1e-4 for a, b in zip(path[:-1], path[1:])):
                         excl = True
                 if excl:
                     part.add("boundary_excluded")
@@ -357,7 +363,7 @@ def run(ctx):
                 "assignments of {0,.5,1} to the bodies for <=2 bodies, a covering third for 3) x disable flags {none, spring, damper, "
                 "spring+damper, gravity}; per model a covering lattice of <=12 configurations x {zero, unit_i, mixed, -1.7*mixed} velocities; "
                 "gradient of the reported potential by central FD (eps=%g) at every configuration; rest-at-reference state. "
-                "non-trivial = (model,variant,flags,state) with nv>=2 and a non-reference state" % (nmax, menu or list(A.JOINTS), VARIANTS, FD_EPS))
+                "non-trivial = (model,variant,flags,configuration) with nv>=2 at a non-reference configuration (all its velocities count once)" % (nmax, menu or list(A.JOINTS), VARIANTS, FD_EPS))
     ctx.assumptions = ["tendon length/Jacobian, body-com Jacobian from the engine (C07)",
                        "tolerance 1e-10 relative on forces, 1e-6 on the finite-difference gradient, 1e-13 absolute at rest",
                        "docs disagree on the configuration used for automatic tendon spring length (qpos0 vs qpos_spring); the auto-length variant has springref = 0"]
